@@ -693,3 +693,54 @@ Proof. vm_compute. reflexivity. Qed.
 (* the regularity hypothesis of the docstring form holds on a concrete sample with concrete SVD data *)
 Example regular_instance : Forall (regular 1 1) (map (loc_of sv2_1 ins_1 1 2 ex_pts1) ex_pts1).
 Proof. repeat constructor. Qed.
+
+(* ================================================================================================ *)
+(* H. d = 2 without SVD data: the closed form is log(sigma_1/sigma_0) for the two eigenvalues of Y^T Y  *)
+From CE Require Import Model.GeoEllipsoid.
+Section D2.
+Open Scope R_scope.
+
+(* the roots of x^2 - t x + dt *)
+Lemma eig2 t dt : 0 < dt -> 4 * dt <= t * t -> 0 < t ->
+  let s := sqrt (t * t - 4 * dt) in let l0 := (t + s) / 2 in let l1 := (t - s) / 2 in
+  l0 + l1 = t /\ l0 * l1 = dt /\ 0 < l1 <= l0 /\ / 2 * ln dt - ln l0 = ln (sqrt l1 / sqrt l0).
+Proof.
+  intros Hd Hdisc Ht s l0 l1.
+  assert (Hs0 : 0 <= s) by apply sqrt_pos.
+  assert (Hs2 : s * s = t * t - 4 * dt) by (apply sqrt_sqrt; lra).
+  assert (Hst : s < t) by nra.
+  assert (P1 : 0 < l1) by (unfold l1; lra). assert (P0 : 0 < l0) by (unfold l0; lra).
+  assert (Hprod : l0 * l1 = dt) by (unfold l0, l1; nra).
+  repeat split; try (unfold l0, l1; lra); try exact Hprod.
+  rewrite ln_div by (apply sqrt_lt_R0; assumption). rewrite !ln_sqrt_half by assumption.
+  rewrite <- Hprod. rewrite ln_mult by assumption. lra.
+Qed.
+
+Theorem sv_term2_meaning D p l t dt : (0 < D)%Z -> (2 <= length l)%nat -> tr_det2 p l = (t, dt) ->
+  (0 < dt)%Z -> (4 * dt <= t * t)%Z -> (0 < t)%Z ->
+  let u := IZR (Z.of_nat (length (p :: l)) * Z.of_nat (length (p :: l)) * (D * D)) in
+  exists l0 l1, l0 + l1 = IZR t / u /\ l0 * l1 = IZR dt / (u * u) /\ 0 < l1 <= l0 /\
+                evalR [] (sv_term2 D p l) = ln (sqrt l1 / sqrt l0).
+Proof.
+  intros HD Hl E Hdt Hdisc Ht u.
+  assert (Hu : 0 < u) by (unfold u; apply IZR_lt; cbn [length]; nia).
+  assert (Rt : 0 < IZR t) by (apply IZR_lt; exact Ht). assert (Rd : 0 < IZR dt) by (apply IZR_lt; exact Hdt).
+  assert (Rdisc : 4 * IZR dt <= IZR t * IZR t) by (rewrite <- !mult_IZR; apply IZR_le; exact Hdisc).
+  set (T := IZR t / u). set (DT := IZR dt / (u * u)).
+  assert (HT : 0 < T) by (apply Rdiv_lt_0_compat; assumption).
+  assert (HDT : 0 < DT) by (apply Rdiv_lt_0_compat; [assumption|nra]).
+  assert (Hq : T * T - 4 * DT = (IZR t * IZR t - 4 * IZR dt) / (u * u)) by (unfold T, DT; field; lra).
+  assert (HD4 : 4 * DT <= T * T).
+  { assert (0 <= (IZR t * IZR t - 4 * IZR dt) / (u * u)) by (apply Rmult_le_pos; [lra|left; apply Rinv_0_lt_compat; nra]). lra. }
+  destruct (eig2 T DT HDT HD4 HT) as [A [B [C F]]].
+  exists ((T + sqrt (T * T - 4 * DT)) / 2), ((T - sqrt (T * T - 4 * DT)) / 2). repeat split; try apply C; try assumption.
+  rewrite <- F. unfold sv_term2. destruct (Nat.ltb_spec (length l) 2) as [H|_]; [lia|]. rewrite E.
+  cbn [half_ln evalR EQ]. rewrite (mult_IZR (_ * _ * _) (_ * _ * _)), (mult_IZR 2), minus_IZR, (mult_IZR t t), (mult_IZR 4 dt). fold u.
+  replace (1 / 2) with (/ 2) by lra. fold DT. f_equal. f_equal.
+  rewrite Hq. rewrite sqrt_div_alt by nra. rewrite sqrt_square by lra. unfold T. field. lra.
+Qed.
+End D2.
+
+(* a concrete planar neighbourhood satisfies the hypotheses of [sv_term2_meaning] *)
+Example d2_instance : tr_det2 [0; 0]%Z [[3; 1]; [1; 4]; [-2; 2]]%Z = (348, 29056)%Z /\ (4 * 29056 <= 348 * 348)%Z.
+Proof. split; [vm_compute; reflexivity|lia]. Qed.
